@@ -78,8 +78,9 @@ Fixpoint skip_space (s : str) : str :=
   match s with c :: tl => if g_isspace c then skip_space tl else s | [] => [] end.
 
 Definition U64MAX : Z := 18446744073709551615.
-(* g_ascii_strtoull (s, NULL, 10): leading white space, optional sign, decimal digits; no digits -> 0;
-   overflow -> G_MAXUINT64; a leading '-' negates modulo 2^64 *)
+(* g_ascii_strtoull (s, NULL, 10) (GLib built with xlocale: strtoull_l in the C locale): leading white
+   space, optional sign, decimal digits; no digits -> 0; overflow -> G_MAXUINT64 whatever the sign;
+   otherwise a leading '-' negates modulo 2^64 *)
 Definition g_strtoull10 (s : str) : Z :=
   match skip_space s with
   | [] => 0
@@ -87,8 +88,8 @@ Definition g_strtoull10 (s : str) : Z :=
     let neg := c =? 45 in
     let s2 := if (c =? 45) || (c =? 43) then tl else c :: tl in
     let '(v, _) := scan_num 10 s2 0 in
-    let r := if v >? U64MAX then U64MAX else v in
-    if neg then (18446744073709551616 - r) mod 18446744073709551616 else r
+    if v >? U64MAX then U64MAX
+    else if neg then (18446744073709551616 - v) mod 18446744073709551616 else v
   end.
 
 (* g_strlcpy (dst, src, n): at most n-1 bytes *)
